@@ -19,11 +19,11 @@ RULE = ('random queries over the C04/C05 domains with every combination of from_
         'wiring is visible.  Judged: status 200; JSON equal (as floats, exactly) to the library call on the same arguments with '
         'the stated HP conversions; arguments observed at the library boundary and converter call counts name the mechanism of a wrong answer (argument-wiring, angle-type-dispatch); HP outputs denote '
         'the decimal results (1e-8"); index route lists /, /vincinv, /vincdir.  distinct = endpoint x from x to x sign pattern x '
-        'distance decade A share of the queries gives east longitudes in 0..360 and bearings below 0 or above 360.')
+        'distance decade.  A share of the queries gives east longitudes in the 0..360 convention (bearings stay in C04\'s 0..360).')
 ASSUMPTIONS = ['Flask/Werkzeug test client is faithful to a real HTTP GET', 'the library functions themselves are judged by C04/C05/C08']
 N = {'quick': 150, 'thorough': 4000}
 SHARDS = {'quick': 16, 'thorough': 16}
-REQUIRED_COUNTERS = ['unjudged_requests_before_a_judged_one', 'tiny_angle_fields', 'fields_in_the_other_convention(lon 0..360, bearing outside 0..360)', 'same_numbers_other_angle_type', 'vincinv_requests', 'vincdir_requests', 'index_requests', 'trace_args_checked']
+REQUIRED_COUNTERS = ['unjudged_requests_before_a_judged_one', 'tiny_angle_fields', 'longitudes_in_the_0_360_convention', 'same_numbers_other_angle_type', 'vincinv_requests', 'vincdir_requests', 'index_requests', 'trace_args_checked']
 TYPES = ['dd', 'dms', None]
 TINY = [0]
 OTHER = [0]
@@ -86,7 +86,6 @@ def build_query(rnd, endpoint):
     lattice = rnd.random() < 0.35
     tiny = rnd.random() < 0.08
     conv = rnd.choice(['both', 'both', 'one']) if rnd.random() < 0.15 else None
-    azconv = rnd.choice(['negative', 'over']) if rnd.random() < 0.12 else None
     for k, v in vals.items():
         v = round(v, rnd.choice([6, 9, 11]))
         if tiny and rnd.random() < 0.6:
@@ -102,9 +101,6 @@ def build_query(rnd, endpoint):
                 v = max(-89.0, min(89.0, v))
         if conv and k.startswith('lon') and v < 0 and (conv != 'one' or k == 'lon1'):
             v = v + 360.0                         # east longitudes counted 0..360 (the other common convention)
-            OTHER[0] += 1
-        elif k == 'azimuth1to2' and azconv:
-            v = v - 360.0 if azconv == 'negative' else v + 360.0      # a bearing given as -45 or as 405 degrees
             OTHER[0] += 1
         q[k] = hpval(v) if ft == 'dms' else v
         if q[k] != 0 and abs(q[k]) < 1e-4:
@@ -324,7 +320,7 @@ def run_shard(spec, ctx):
             ctx.count('tiny_angle_fields', TINY[0])
             TINY[0] = 0
         if OTHER[0]:
-            ctx.count('fields_in_the_other_convention(lon 0..360, bearing outside 0..360)', OTHER[0])
+            ctx.count('longitudes_in_the_0_360_convention', OTHER[0])
             OTHER[0] = 0
         if rnd.random() < 0.4:
             # the same numbers again with another effective input / output angle type (valid only when they also read
